@@ -75,6 +75,10 @@ def gen_case(rng, tier="quick"):
         m["complex"] = True
         m["phases"] = [_r(rng, 0.0, 6.28) for _ in range(d)]
         m["n_steps"] = rng.randrange(2, 7)
+    # a constant added to the Hamiltonian changes nothing physically, but it
+    # moves every Boltzmann weight by exp(-shift/T): relative truncations
+    # must keep working when all weights are tiny (or huge)
+    m["shift"] = _pick(rng, [0.0, 0.0, 0.0, 2.0, 5.0, -3.0])
     ops = []
     for _ in range(rng.randrange(2, 8)):
         ops.append([_pick(rng, ["compute", "get_state", "get_dynamics"],
@@ -149,11 +153,12 @@ def hamiltonian(m):
 
 def build(m):
     import oqupy
+    shift = m.get("shift", 0.0) * np.identity(m["d"])
     corr = oqupy.PowerLawSD(alpha=m["alpha"], zeta=m["zeta"],
                             cutoff=m["cutoff"], cutoff_type=m["cutoff_type"],
                             temperature=m["temperature"])
     bath = oqupy.Bath(np.diag(np.array(m["coupling"], dtype=complex)), corr)
-    system = oqupy.System(hamiltonian(m))
+    system = oqupy.System(hamiltonian(m) + shift)
     pars = oqupy.GibbsParameters(n_steps=m["n_steps"], epsrel=m["epsrel"])
     return oqupy.GibbsTempo(system, bath, pars), corr
 
